@@ -218,13 +218,25 @@ func TestC16Store(t *testing.T) {
 		if tiny {
 			nHot = rapid.IntRange(2, 4).Draw(t, "hotNtiny")
 		}
+		// ladder mode: the mined deep-path group (target + one key per shared-prefix length 0..29): proofs of 30+ nodes, an order
+		// of magnitude deeper than what random states of this size reach
+		ladderMode := !tiny && rapid.IntRange(0, 5).Draw(t, "ladder") == 0
+		if ladderMode {
+			tgt, lad := sm.Ladder()
+			hot = append(append(hot, tgt), lad...)
+			nHot = len(hot) + rapid.IntRange(0, 6).Draw(t, "ladderExtra")
+		}
 		for len(hot) < nHot {
-			switch rapid.IntRange(0, 3).Draw(t, "kind") {
+			switch rapid.IntRange(0, 5).Draw(t, "kind") {
 			case 0, 1:
 				i := pool.Close[rapid.IntRange(0, len(pool.Close)-1).Draw(t, "close")]
 				for j := 0; j < 3 && i+j < len(pool.Keys); j++ {
 					hot = append(hot, pool.Keys[i+j])
 				}
+			case 2, 3:
+				// keys of other lengths, in particular the sizes of a hash / of a tree key (20, 32) and their neighbours
+				total := rapid.SampledFrom([]int{10, 19, 20, 20, 21, 31, 32, 32, 32, 33, 63, 64, 65, 100, 250}).Draw(t, "keyLen")
+				hot = append(hot, sm.LongKey(uint32(rapid.IntRange(0, 1<<20).Draw(t, "longIdx")), total))
 			default:
 				hot = append(hot, pool.Keys[rapid.IntRange(0, len(pool.Keys)-1).Draw(t, "rnd")])
 			}
@@ -236,6 +248,15 @@ func TestC16Store(t *testing.T) {
 			n := rapid.IntRange(1, 40).Draw(t, "n")
 			if tiny {
 				n = rapid.IntRange(1, 3).Draw(t, "ntiny")
+			}
+			if ladderMode && b == 0 {
+				for _, k := range hot[:1+len(sm.LadderIdx)] {
+					v := []byte{byte(len(model) + 1)}
+					if err := s.Set(bytes.Clone(k), bytes.Clone(v)); err != nil {
+						t.Fatalf("set: %v", err)
+					}
+					model[string(k)] = v
+				}
 			}
 			for i := 0; i < n; i++ {
 				k := hot[rapid.IntRange(0, len(hot)-1).Draw(t, "k")]
@@ -278,6 +299,7 @@ func TestC16Store(t *testing.T) {
 		}()
 		ec.Desc("versions=%d entries=%d", nv, len(model))
 		ec.ClassIf(tiny, "tiny-state")
+		ec.ClassIf(ladderMode, "ladder-state")
 		nontrivial := false
 		statements := rapid.IntRange(3, 10).Draw(t, "statements")
 		for si := 0; si < statements; si++ {
@@ -285,6 +307,9 @@ func TestC16Store(t *testing.T) {
 			key := hot[rapid.IntRange(0, len(hot)-1).Draw(t, "key")]
 			if rapid.IntRange(0, 9).Draw(t, "fresh") == 0 {
 				key = pool.Keys[rapid.IntRange(0, len(pool.Keys)-1).Draw(t, "anykey")]
+			}
+			if ladderMode && si == 0 {
+				key = hot[0] // the ladder's target: the deepest path
 			}
 			val, present := ver.state[string(key)]
 			// --- completeness: the store produces a proof for the true statement and it verifies against the committed root
@@ -299,6 +324,9 @@ func TestC16Store(t *testing.T) {
 			if verr != nil || !ok {
 				t.Fatalf("completeness: version %d key %x present=%v: honest proof (len %d) does not verify against the committed root (ok=%v err=%v)", ver.v, key, present, len(proof), ok, verr)
 			}
+			ec.ClassIf(len(proof) > 22, "proof>22-nodes")
+			ec.ClassIf(len(key) == 20 || len(key) == 32, "key-of-hash-length(20|32)")
+			ec.ClassIf(len(key) != 8, "long-key")
 			ec.ClassIf(present, "honest-membership")
 			ec.ClassIf(!present, "honest-non-membership")
 			ec.ClassIf(ver.v < versions[len(versions)-1].v, "historical-version")
